@@ -12,12 +12,14 @@ package rawmessagesfilter
 //@   requires [own-height] message.BlockHeight() == caller.state.height
 //@   requires [own-instance] message.InstanceId() == caller.instanceId
 //@   requires [not-from-me] message.SenderMemberId() != caller.myMemberId
-//@   modifies state.State.height, state.State.view, rawmessagesfilter.RawMessageFilter.consensusMessagesHandler, rawmessagesfilter.RawMessageFilter.latestFutureBlockHeight, M:Int:Slice_Iface, ghost:ndelivered, ghost:delivered
+//@   modifies state.State.height, state.State.view, rawmessagesfilter.RawMessageFilter.consensusMessagesHandler, rawmessagesfilter.RawMessageFilter.latestFutureBlockHeight, M:Int:Slice_Iface, ghost:ndelivered, ghost:delivered, ghost:lastRoundHeight, ghost:lastCommitHeight, M:S_state_HeightView:Int
 //@   ensures ndelivered >= old(ndelivered) + 1 && delivered[old(ndelivered)] == message
 //@   ensures forall j int :: 0 <= j && j < old(ndelivered) ==> delivered[j] == old(delivered[j])
 //@   ensures caller.state.height == old(caller.state.height) ==> ndelivered == old(ndelivered) + 1 && caller.consensusMessagesHandler == old(caller.consensusMessagesHandler) && caller.latestFutureBlockHeight == old(caller.latestFutureBlockHeight)
 //@   ensures caller.state.height == old(caller.state.height) ==> (forall k int :: has(caller.futureCache, k) == old(has(caller.futureCache, k)) && caller.futureCache[k] == old(caller.futureCache[k]))
 //@   ensures caller.state.height >= old(caller.state.height)
+//@   ensures lastRoundHeight >= old(lastRoundHeight) && lastCommitHeight >= old(lastCommitHeight) && (old(lastRoundHeight) <= old(caller.state.height) ==> lastRoundHeight <= caller.state.height)
+//@   ensures caller.state.height == old(caller.state.height) ==> lastRoundHeight == old(lastRoundHeight)
 //@   ensures caller.state == old(caller.state) && caller.futureCache == old(caller.futureCache)
 //@   ensures forall k int, i int :: has(caller.futureCache, k) && 0 <= i && i < len(caller.futureCache[k]) ==> caller.futureCache[k][i].BlockHeight() == k && caller.futureCache[k][i].InstanceId() == caller.instanceId && caller.futureCache[k][i].SenderMemberId() != caller.myMemberId
 
@@ -35,8 +37,10 @@ package rawmessagesfilter
 //@     invariant [frame] f.futureCache == old(f.futureCache)
 
 //@ func (*RawMessageFilter).HandleConsensusRawMessage
+//@   ensures [height-forward] f.state.height >= old(f.state.height) && f.state == old(f.state) && lastRoundHeight >= old(lastRoundHeight) && (old(lastRoundHeight) <= old(f.state.height) ==> lastRoundHeight <= f.state.height)
+//@   ensures [no-round-without-height-change] f.state.height == old(f.state.height) ==> lastRoundHeight == old(lastRoundHeight)
 //@   props C17 C08
-//@   modifies state.State.height, state.State.view, rawmessagesfilter.RawMessageFilter.consensusMessagesHandler, rawmessagesfilter.RawMessageFilter.latestFutureBlockHeight, M:Int:Slice_Iface, ghost:ndelivered, ghost:delivered
+//@   modifies state.State.height, state.State.view, rawmessagesfilter.RawMessageFilter.consensusMessagesHandler, rawmessagesfilter.RawMessageFilter.latestFutureBlockHeight, M:Int:Slice_Iface, ghost:ndelivered, ghost:delivered, ghost:lastRoundHeight, ghost:lastCommitHeight, M:S_state_HeightView:Int
 //@   requires f.state != nil && f.futureCache != nil && rawMessage != nil && ndelivered >= 0
 //@   requires [inv.cache] forall k int, i int :: has(f.futureCache, k) && 0 <= i && i < len(f.futureCache[k]) ==> f.futureCache[k][i].BlockHeight() == k && f.futureCache[k][i].InstanceId() == f.instanceId && f.futureCache[k][i].SenderMemberId() != f.myMemberId
 //@   ensures [inv.cache] forall k int, i int :: has(f.futureCache, k) && 0 <= i && i < len(f.futureCache[k]) ==> f.futureCache[k][i].BlockHeight() == k && f.futureCache[k][i].InstanceId() == f.instanceId && f.futureCache[k][i].SenderMemberId() != f.myMemberId
@@ -53,8 +57,10 @@ package rawmessagesfilter
 //@   ensures [nothing-delivered-when-cached-or-dropped] !(message != nil && message.SenderMemberId() != f.myMemberId && message.BlockHeight() == old(f.state.height) && message.InstanceId() == f.instanceId) ==> ndelivered == old(ndelivered) && f.state.height == old(f.state.height)
 
 //@ func (*RawMessageFilter).ConsumeCacheMessages
+//@   ensures [height-forward] f.state.height >= old(f.state.height) && f.state == old(f.state) && lastRoundHeight >= old(lastRoundHeight) && (old(lastRoundHeight) <= old(f.state.height) ==> lastRoundHeight <= f.state.height)
+//@   ensures [no-round-without-height-change] f.state.height == old(f.state.height) ==> lastRoundHeight == old(lastRoundHeight)
 //@   props C17
-//@   modifies state.State.height, state.State.view, rawmessagesfilter.RawMessageFilter.consensusMessagesHandler, rawmessagesfilter.RawMessageFilter.latestFutureBlockHeight, M:Int:Slice_Iface, ghost:ndelivered, ghost:delivered
+//@   modifies state.State.height, state.State.view, rawmessagesfilter.RawMessageFilter.consensusMessagesHandler, rawmessagesfilter.RawMessageFilter.latestFutureBlockHeight, M:Int:Slice_Iface, ghost:ndelivered, ghost:delivered, ghost:lastRoundHeight, ghost:lastCommitHeight, M:S_state_HeightView:Int
 //@   requires f.state != nil && f.futureCache != nil && ndelivered >= 0
 //@   requires [inv.cache] forall k int, i int :: has(f.futureCache, k) && 0 <= i && i < len(f.futureCache[k]) ==> f.futureCache[k][i].BlockHeight() == k && f.futureCache[k][i].InstanceId() == f.instanceId && f.futureCache[k][i].SenderMemberId() != f.myMemberId
 //@   ensures [inv.cache] forall k int, i int :: has(f.futureCache, k) && 0 <= i && i < len(f.futureCache[k]) ==> f.futureCache[k][i].BlockHeight() == k && f.futureCache[k][i].InstanceId() == f.instanceId && f.futureCache[k][i].SenderMemberId() != f.myMemberId
@@ -65,6 +71,7 @@ package rawmessagesfilter
 //@   loop range messages
 //@     invariant [frame] f.state == old(f.state) && f.futureCache == old(f.futureCache)
 //@     invariant [height-monotone] f.state.height >= height && height == old(f.state.height)
+//@     invariant [rounds] lastRoundHeight >= old(lastRoundHeight) && (old(lastRoundHeight) <= old(f.state.height) ==> lastRoundHeight <= f.state.height) && (f.state.height == old(f.state.height) ==> lastRoundHeight == old(lastRoundHeight))
 //@     invariant [messages-are-the-cached-ones] messages == old(f.futureCache[old(f.state.height)])
 //@     invariant [log.count] consensusMessagesHandler != nil && f.state.height == height ==> ndelivered == old(ndelivered) + $i && f.consensusMessagesHandler == consensusMessagesHandler
 //@     invariant [log.elems] consensusMessagesHandler != nil && f.state.height == height ==> (forall j int :: old(ndelivered) <= j && j < old(ndelivered) + $i ==> delivered[j] == messages[j - old(ndelivered)])
